@@ -7,6 +7,7 @@ import (
 	"github.com/aws/aws-sdk-go/service/dynamodb"
 	"github.com/truora/minidyn/internal/nd"
 	"github.com/truora/minidyn/internal/vspec"
+	ctypes "github.com/truora/minidyn/types"
 )
 
 // vPoke overwrites every mutable location reachable from av: pointer targets, slice elements, map entries.
@@ -146,6 +147,49 @@ func VerifC14IsolationV1() {
 			nd.Assert(err == nil, "C14v1-delete-noerr")
 			same(g, "C14v1-returned-result-unchanged-by-later-writes")
 		}
+	}
+	nd.Reach("end")
+}
+
+// VerifC14KeyInputsV1: the SDK v1 twin of VerifC14KeyInputs: the Key and the expression values of an UpdateItem
+// are trees of caller-owned pointers; poking every pointer target after the call changes nothing a later read
+// returns, whether the update was applied by the built-in interpreter or by a registered native updater, on a
+// created and on an updated item.
+func VerifC14KeyInputsV1() {
+	c := vClient(false)
+	v := vspec.GenTree("a", 0, 1)
+	native := nd.Choice("native-updater", 2) == 1
+	if native {
+		nd.Reach("native-updater")
+		c.ActivateNativeInterpreter()
+		c.GetNativeInterpreter().AddUpdater(vTbl, "SET a = :a", func(item, attrs map[string]*ctypes.Item) { item["a"] = attrs[":a"] })
+	}
+	if nd.Choice("item-present", 2) == 1 {
+		_, err := c.PutItem(&dynamodb.PutItemInput{TableName: aws.String(vTbl), Item: vItem{"p": vS("k"), "z": vS("z")}})
+		nd.Assert(err == nil, "C14v1-put-noerr")
+	} else {
+		nd.Reach("created-by-update")
+	}
+	key := vItem{"p": vS("k")}
+	vals := vItem{":a": vToAV(v)}
+	out, err := c.UpdateItem(&dynamodb.UpdateItemInput{TableName: aws.String(vTbl), Key: key, UpdateExpression: aws.String("SET a = :a"),
+		ExpressionAttributeValues: vals, ReturnValues: aws.String("ALL_NEW")})
+	nd.Assert(err == nil, "C14v1-update-noerr")
+	vPokeItem(key)
+	vPokeItem(vals)
+	if err == nil {
+		vPokeItem(out.Attributes)
+	}
+	g, gerr := c.GetItem(&dynamodb.GetItemInput{TableName: aws.String(vTbl), Key: vItem{"p": vS("k")}})
+	nd.Assert(gerr == nil, "C14v1-get-noerr")
+	if gerr == nil {
+		got, ok := g.Item["a"]
+		nd.Assert(g.Item["p"] != nil && g.Item["p"].S != nil && *g.Item["p"].S == "k" && ok && vSameAV(v, got), "C14v1-update-key-and-values-not-shared")
+	}
+	s, serr := c.Scan(&dynamodb.ScanInput{TableName: aws.String(vTbl)})
+	nd.Assert(serr == nil && len(s.Items) == 1, "C14v1-one-item")
+	if serr == nil && len(s.Items) == 1 {
+		nd.Assert(s.Items[0]["p"] != nil && s.Items[0]["p"].S != nil && *s.Items[0]["p"].S == "k", "C14v1-stored-key-not-shared")
 	}
 	nd.Reach("end")
 }
